@@ -50,11 +50,26 @@ class Env:
             # unquoted, a reference to a list of several elements would split the argument: not supported
             if not quoted and any(p[0] == "var" and len(self.vars.get(p[1], [])) > 1 for p in parts):
                 raise Unsupported("unquoted argument mixing text and a list reference")
-            zs = [StringVal(p[1]) if p[0] == "lit" else as_arg(("joined", self.vars.get(p[1], []))) for p in parts]
-            r = zs[0]
-            for z in zs[1:]:
-                r = Concat(r, z)
-            return [r]
+            # the value is text with the list separators of the referenced lists in it: as an argument it is one string (elements
+            # joined by ';'), stored into a list it splits again at those separators
+            elems = []
+            cur = None
+            def app(x, y):
+                return y if x is None else Concat(x, y)
+            for p in parts:
+                if p[0] == "lit":
+                    cur = app(cur, StringVal(p[1]))
+                else:
+                    v = self.vars.get(p[1], [])
+                    if len(v) == 0:
+                        continue
+                    cur = app(cur, v[0])
+                    if len(v) > 1:
+                        elems.append(cur)
+                        elems.extend(v[1:-1])
+                        cur = v[-1]
+            elems.append(cur if cur is not None else StringVal(""))
+            return [("joined", elems)]
         return [StringVal(body)]
 
 def flatten(items):
@@ -202,6 +217,9 @@ def interpret_paths(cmds, fname, actual_args, extra_vars, isdir):
         for p, v in zip(params, actual_args): env.vars[p] = [v]
         env.vars["ARGC"] = [StringVal(str(len(actual_args)))]
         env.vars["ARGN"] = list(actual_args[len(params):])
+        env.vars["ARGV"] = list(actual_args)
+        for j_, v_ in enumerate(actual_args):
+            env.vars["ARGV%d" % j_] = [v_]
         argc = len(actual_args)
         pc = []; calls = []; nd = 0
         effects = []      # file-system mutations performed by the function itself: (subcommand, [argument terms])
@@ -240,6 +258,26 @@ def interpret_paths(cmds, fname, actual_args, extra_vars, isdir):
             elif name == "list" and args and args[0][1] == "PREPEND":
                 var = args[1][1]
                 env.vars[var] = flatten([x for (t, s_) in args[2:] for x in env.expand(t, s_)]) + env.vars.get(var, [])
+            elif name == "list" and args and args[0][1] == "REMOVE_ITEM" and len(args) >= 3:
+                # removes EVERY element equal to one of the given values
+                var = args[1][1]
+                gone = flatten([x for (t, s_) in args[2:] for x in env.expand(t, s_)])
+                keep = []
+                for e in env.vars.get(var, []):
+                    hit = False
+                    for g_ in gone:
+                        if is_string_value(e) and is_string_value(g_):
+                            same = e.as_string() == g_.as_string()
+                        elif e is g_ or e.eq(g_):
+                            same = True
+                        else:
+                            same, decisions, nd = decide(e == g_, decisions, nd, pc)
+                        if same:
+                            hit = True
+                            break
+                    if not hit:
+                        keep.append(e)
+                env.vars[var] = keep
             elif name == "list" and args and args[0][1] == "REMOVE_DUPLICATES" and len(args) == 2:
                 var = args[1][1]
                 keep = []
